@@ -254,10 +254,35 @@ pub mod d09_skips {
     }
 
     impl embedded_cli::service::Autocomplete for NoAuto {
+        #[cfg(feature = "autocomplete")]
         fn autocomplete(
             _request: embedded_cli::autocomplete::Request<'_>,
             _autocompletion: &mut embedded_cli::autocomplete::Autocompletion<'_>,
         ) {
         }
+    }
+}
+
+pub mod d10_name_combos {
+    //! generated and explicit option names mixed; custom value names on required arguments
+    use embedded_cli::Command;
+
+    #[derive(Command)]
+    pub enum Cmd<'a> {
+        /// Mixed generated and explicit names
+        Mix {
+            /// bare short with an explicit long whose first letter differs
+            #[arg(short, long = "output")]
+            file: Option<&'a str>,
+            /// explicit short with a generated long
+            #[arg(short = 'x', long)]
+            extra: bool,
+            /// required option with a custom value name
+            #[arg(long, value_name = "TIMES")]
+            count: u8,
+            /// required positional with a custom value name
+            #[arg(value_name = "PATH")]
+            source: &'a str,
+        },
     }
 }
